@@ -2,7 +2,10 @@
 // library-detected mid-save errors — on fixed scenarios over the real archives.
 //   fault.trunc <archive> <src> <hex doc> <k>      load the first k bytes   (archive mpx: document with members the class does not
 //                                                   know; mptup: array longer than the target tuple — truncation is then noticed
-//                                                   only by the skip loops of the scope destructors)
+//                                                   only by the skip loops of the scope destructors; mpbin: byte containers
+//                                                   = `bin` values read through CMsgPackReadBinaryScope, the last one into a
+//                                                   SHORTER fixed-size array: the scope is destroyed partly read while the
+//                                                   OutOfRange exception unwinds and its destructor skips the rest)
 //   fault.alloc <scenario> <k>                      the k-th operator new during the scenario throws bad_alloc
 //   fault.io <scenario> <offset>                    the stream buffer fails at byte <offset>
 //   fault.midsave <scenario>                        value/consistency error detected midway through a save
@@ -25,6 +28,7 @@
 #include "bitserializer/types/std/map.h"
 #include "bitserializer/types/std/optional.h"
 #include "bitserializer/types/std/tuple.h"
+#include "bitserializer/types/std/array.h"
 
 using namespace vh;
 using namespace BitSerializer;
@@ -89,6 +93,26 @@ struct OuterX {
 // an array longer than the tuple it is loaded into (Skip policy): the surplus elements are skipped by ~CMsgPackReadArrayScope
 using LongTuple = std::tuple<int, std::string, int, std::string, std::vector<int>, std::string>;
 using ShortTuple = std::tuple<int, std::string>;
+// byte containers (`bin 8`, `bin 16` crossing the 256-byte chunk of the stream reader, an array of `bin`); the document is
+// saved from BinSource and loaded into BinTarget whose last member is a fixed-size array SHORTER than the stored `bin`
+struct BinSource {
+	std::vector<uint8_t> blob{ 1, 2, 3, 0xC1, 0xFF, 0 };
+	std::vector<char> big = std::vector<char>(300, '\x92');
+	std::vector<std::vector<unsigned char>> blobs{ { 10, 20, 30, 40, 50 }, {}, { 0xC4, 0x01, 0x00 }, { 7 } };
+	int mid = 77;
+	std::vector<uint8_t> fixed{ 9, 8, 7, 6, 5, 4, 3, 2 };
+	template <class TArchive> void Serialize(TArchive& archive) {
+		archive << KeyValue("blob", blob) << KeyValue("big", big) << KeyValue("blobs", blobs) << KeyValue("mid", mid) << KeyValue("fixed", fixed);
+	}
+};
+struct BinTarget {
+	std::vector<uint8_t> blob; std::vector<char> big; std::vector<std::vector<unsigned char>> blobs; int mid = 0;
+	std::array<uint8_t, 3> fixed{};
+	template <class TArchive> void Serialize(TArchive& archive) {
+		archive << KeyValue("blob", blob) << KeyValue("big", big) << KeyValue("blobs", blobs) << KeyValue("mid", mid) << KeyValue("fixed", fixed);
+	}
+};
+
 LongTuple sampleLongTuple() { return { 7, "seven", 70000, std::string(40, 't'), { 1, 2, 300 }, "end" }; }
 
 Outer sampleOuter() {
@@ -178,6 +202,7 @@ Register f1("fault.trunc", [](const Tokens& t) -> std::string {
 		else if (t[1] == "mpvec") full = SaveObject<MsgPack::MsgPackArchive>(std::vector<std::vector<int>>{ {1, 2, 3}, {}, {70000, -5} });
 		else if (t[1] == "mpx") { OuterX x; x.base = sampleOuter(); full = SaveObject<MsgPack::MsgPackArchive>(x); }
 		else if (t[1] == "mptup") full = SaveObject<MsgPack::MsgPackArchive>(sampleLongTuple());
+		else if (t[1] == "mpbin") full = SaveObject<MsgPack::MsgPackArchive>(BinSource{});
 		else if (t[1] == "csv") full = SaveObject<Csv::CsvArchive>(sampleRows());
 		else if (t[1] == "json") full = SaveObject<Json::RapidJson::JsonArchive>(sampleOuter());
 		else if (t[1] == "xml") full = SaveObject<Xml::PugiXml::XmlArchive>(sampleOuter());
@@ -192,6 +217,7 @@ Register f1("fault.trunc", [](const Tokens& t) -> std::string {
 		std::istringstream is(doc);
 		if (t[1] == "mp" || t[1] == "mpx") { Outer o; if (stream) LoadObject<MsgPack::MsgPackArchive>(o, is, opts); else LoadObject<MsgPack::MsgPackArchive>(o, doc, opts); }
 		else if (t[1] == "mpvec") { std::vector<std::vector<int>> o; if (stream) LoadObject<MsgPack::MsgPackArchive>(o, is, opts); else LoadObject<MsgPack::MsgPackArchive>(o, doc, opts); }
+		else if (t[1] == "mpbin") { BinTarget o; if (stream) LoadObject<MsgPack::MsgPackArchive>(o, is, opts); else LoadObject<MsgPack::MsgPackArchive>(o, doc, opts); }
 		else if (t[1] == "mptup") { ShortTuple o; if (stream) LoadObject<MsgPack::MsgPackArchive>(o, is, opts); else LoadObject<MsgPack::MsgPackArchive>(o, doc, opts); }
 		else if (t[1] == "csv") { std::vector<Row> r; if (stream) LoadObject<Csv::CsvArchive>(r, is, opts); else LoadObject<Csv::CsvArchive>(r, doc, opts); }
 		else if (t[1] == "json") { Outer o; if (stream) LoadObject<Json::RapidJson::JsonArchive>(o, is, opts); else LoadObject<Json::RapidJson::JsonArchive>(o, doc, opts); }
